@@ -1004,7 +1004,8 @@ func reachesAvoiding(b, target, stop *ssa.BasicBlock) bool {
 }
 
 // checkAppendEncoderShape: the encoder builds its output by appending, per component, one length byte and then the whole value:
-//   buf = append(buf, uint8(len(v))) ; buf = append(buf, v...)   with buf starting empty and carried round the loop.
+//
+//	buf = append(buf, uint8(len(v))) ; buf = append(buf, v...)   with buf starting empty and carried round the loop.
 func checkAppendEncoderShape(p *Prog, r *Report, kp func(string, string) string, fn *ssa.Function, cv *ssa.Convert, val ssa.Value, one *ssa.Alloc) {
 	fname := FuncName(fn)
 	site := p.Pos(cv.Pos())
